@@ -13,6 +13,7 @@
        canon n = n                                      when the type dictionaries are single-entry
    Facts about Gen/Tables.v (GENERATED) are proved by computation only. *)
 From NIR Require Import Model.Graph Model.Serial Proofs.MirrorClosedProofs.
+From NIR Require Proofs.NodesProofs.
 From Coq Require Import Lia List Bool String.
 
 (* ---- (1) the type tag is read back ------------------------------------------------------------- *)
@@ -146,4 +147,184 @@ Lemma bind_args_keys k args bfs : bind_args k args = Ok bfs -> map fst bfs = cla
 Proof.
   unfold bind_args, class_keys. destruct (class_fields k) as [cf|]; [|discriminate].
   destruct (forallb _ args); [|discriminate]. apply bind_fields_keys.
+Qed.
+
+Lemma dict2node_tag f d k :
+  assoc "type" d = Some (VStr (kind_name k)) ->
+  dict2node (S f) d =
+  match k with
+  | KGraph => dict2node (S f) d
+  | KInput =>
+        match assoc "shape" d with
+        | None => Err KeyError
+        | Some sv => construct KInput (assoc_del "type" (assoc_del "shape"
+                        (assoc_set "input_type" (VDict [("input", sv)]) d)))
+        end
+  | KOutput =>
+        match assoc "shape" d with
+        | None => Err KeyError
+        | Some sv => construct KOutput (assoc_del "type" (assoc_del "shape"
+                        (assoc_set "output_type" (VDict [("output", sv)]) d)))
+        end
+  | KFlatten =>
+        let it := match assoc "input_type" d with Some v => v | None => VNone end in
+        construct KFlatten (assoc_del "type" (assoc_set "input_type" (VDict [("input", it)]) d))
+  | _ => construct k (assoc_del "type" d)
+  end.
+Proof.
+  intros H. destruct k; [..|reflexivity]; cbn [dict2node]; rewrite H; cbn [bind];
+    rewrite str2kind_name; cbn [bind]; reflexivity.
+Qed.
+
+(* kinds whose dictionary is just the fields plus the tag *)
+Definition plain_kind (k : kind) : bool :=
+  match k with KInput | KOutput | KFlatten | KGraph => false | _ => true end.
+
+Lemma from_dict_plain k fs tin tout :
+  plain_kind k = true -> assoc "type" fs = None ->
+  from_dict (to_dict (Leaf k fs tin tout)) = construct k fs.
+Proof.
+  intros Hk Hn. unfold from_dict.
+  assert (to_dict (Leaf k fs tin tout) = fs ++ [("type", VStr (kind_name k))]) as ->
+    by (destruct k; try discriminate Hk; reflexivity).
+  rewrite (dict2node_tag _ _ k) by (rewrite assoc_app_none by exact Hn; reflexivity).
+  rewrite assoc_del_app, (assoc_del_absent _ _ Hn). cbn [assoc_del String.eqb Ascii.eqb Bool.eqb andb].
+  rewrite app_nil_r. destruct k; try discriminate Hk; reflexivity.
+Qed.
+
+Ltac shape_list H :=
+  repeat match type of H with
+  | map fst ?l = _ :: _ =>
+      destruct l as [|[? ?] ?]; [discriminate H|]; cbn [map fst] in H;
+      let H1 := fresh in injection H as H1 H; subst
+  | map fst ?l = [] => destruct l; [clear H|discriminate H]
+  end.
+
+Ltac ckeys Hb :=
+  apply bind_args_keys in Hb;
+  match type of Hb with _ = ?r => let r' := eval vm_compute in r in change r with r' in Hb end;
+  shape_list Hb.
+
+
+Ltac red_in H :=
+  unfold post_init, elementwise, matvec in H;
+  cbn [mapM fld_shape fld assoc String.eqb Ascii.eqb Bool.eqb andb bind] in H.
+Ltac red_goal :=
+  unfold post_init, elementwise, matvec;
+  cbn [mapM fld_shape fld assoc String.eqb Ascii.eqb Bool.eqb andb bind].
+Ltac rw_hyps := repeat match goal with E : ?x = _ |- context [?x] => rewrite E; cbn [bind] end.
+Ltac compute_bind :=
+  match goal with |- context [bind_args ?k ?l] =>
+    let r := eval cbn [bind_args class_fields class_table kind_name assoc forallb mem_str keys map fst
+                       bind_fields bind String.eqb Ascii.eqb Bool.eqb andb orb] in (bind_args k l) in
+    change (bind_args k l) with r end; cbn [bind].
+Ltac open_construct H Hb :=
+  unfold construct in H;
+  match type of H with bind (bind_args ?k ?a) _ = _ =>
+    destruct (bind_args k a) as [?bfs|] eqn:Hb; cbn [bind] in H; [|discriminate H] end;
+  ckeys Hb.
+
+
+
+Ltac split_shapes H :=
+  repeat match type of H with context [shape_attr ?v] =>
+    destruct (shape_attr v) eqn:?; cbn [bind] in H; [|discriminate H] end.
+
+Lemma bcast_rev_refl a : bcast_rev a a = Some a.
+Proof.
+  induction a as [|x a IH]; cbn [bcast_rev]; [reflexivity|]. rewrite IH, Z.eqb_refl. reflexivity.
+Qed.
+Lemma broadcast_shapes_refl a : broadcast_shapes a a = Some a.
+Proof. unfold broadcast_shapes. rewrite bcast_rev_refl. cbn [option_map]. rewrite rev_involutive. reflexivity. Qed.
+
+Lemma idem_cuba args k' fs tin tout :
+  construct KCubaLIF args = Ok (Leaf k' fs tin tout) -> from_dict (to_dict (Leaf k' fs tin tout)) = Ok (Leaf k' fs tin tout).
+Proof.
+  intros H. open_construct H Hb. red_in H. split_shapes H.
+  ok_walk H.
+  match goal with E : _ = Ok (Leaf _ _ _ _) |- _ => ok_walk E end.
+  match goal with E : shape_eqb _ _ = true |- _ => apply NodesProofs.shape_eqb_eq in E; subst end.
+  cbn [drop_types assoc_del assoc_set String.eqb Ascii.eqb Bool.eqb andb].
+  rewrite from_dict_plain by reflexivity. unfold construct. compute_bind. red_goal.
+  rw_hyps. cbn [operand_shape bind]. rewrite broadcast_shapes_refl, NodesProofs.shape_eqb_refl.
+  cbn [drop_types assoc_del assoc_set String.eqb Ascii.eqb Bool.eqb andb].
+  reflexivity.
+Qed.
+
+Lemma pair_if_int_idem v : pair_if_int (pair_if_int v) = pair_if_int v.
+Proof. destruct v; reflexivity. Qed.
+Lemma pad_bad_pair v : pad_is_bad_string (pair_if_int v) = pad_is_bad_string v.
+Proof. destruct v; reflexivity. Qed.
+
+Ltac cbn_fields := cbn [drop_types assoc_del assoc_set String.eqb Ascii.eqb Bool.eqb andb].
+
+Lemma idem_conv2d args k' fs tin tout :
+  construct KConv2d args = Ok (Leaf k' fs tin tout) -> from_dict (to_dict (Leaf k' fs tin tout)) = Ok (Leaf k' fs tin tout).
+Proof.
+  intros H. open_construct H Hb. red_in H. cbn [assoc_set String.eqb Ascii.eqb Bool.eqb andb] in H.
+  ok_walk H.
+  all: cbn_fields; rewrite from_dict_plain by reflexivity; unfold construct; compute_bind; red_goal;
+       cbn [assoc_set String.eqb Ascii.eqb Bool.eqb andb]; rewrite ?pad_bad_pair, ?pair_if_int_idem; rw_hyps;
+       cbn_fields; reflexivity.
+Qed.
+
+Definition simple_kind (k : kind) : bool :=
+  match k with KInput | KOutput | KFlatten | KGraph | KConv2d | KCubaLIF => false | _ => true end.
+
+Lemma idem_simple k args k' fs tin tout : simple_kind k = true ->
+  construct k args = Ok (Leaf k' fs tin tout) -> from_dict (to_dict (Leaf k' fs tin tout)) = Ok (Leaf k' fs tin tout).
+Proof.
+  intros Hk H. destruct k; try discriminate Hk; clear Hk; open_construct H Hb; red_in H; split_shapes H; ok_walk H.
+  all: cbn_fields; rewrite from_dict_plain by reflexivity; unfold construct; compute_bind; red_goal; rw_hyps;
+       cbn_fields; reflexivity.
+Qed.
+
+Definition restrict (key : string) (t : ty) : ty :=
+  match t with
+  | Some d => match assoc key d with Some v => Some [(key, v)] | None => t end
+  | None => None
+  end.
+
+Lemma ints_view_VInt l : ints_view (map VInt l) = Some l.
+Proof. induction l as [|z l IH]; cbn [map ints_view int_view]; [reflexivity|]. rewrite IH. reflexivity. Qed.
+
+Lemma tyv_round v : tyv_of_pval (pval_of_tyv v) = v.
+Proof. destruct v; cbn [pval_of_tyv tyv_of_pval]; try reflexivity. rewrite ints_view_VInt. reflexivity. Qed.
+
+Ltac cbn_dict := cbn [to_dict app assoc assoc_del assoc_set kind_name String.eqb Ascii.eqb Bool.eqb andb].
+
+Lemma idem_input args k' fs tin tout :
+  construct KInput args = Ok (Leaf k' fs tin tout) ->
+  from_dict (to_dict (Leaf k' fs tin tout)) = Ok (Leaf k' fs (restrict "input" tin) tout).
+Proof.
+  intros H. open_construct H Hb. red_in H. ok_walk H.
+  cbn_fields. unfold from_dict. cbn_dict.
+  rewrite (dict2node_tag _ _ KInput) by reflexivity. cbn_dict.
+  unfold construct. compute_bind. red_goal. cbn [parse_shape map fst snd ty_get restrict bind].
+  rw_hyps. rewrite tyv_round. cbn_dict. cbn_fields. reflexivity.
+Qed.
+
+Lemma idem_output args k' fs tin tout :
+  construct KOutput args = Ok (Leaf k' fs tin tout) ->
+  from_dict (to_dict (Leaf k' fs tin tout)) = Ok (Leaf k' fs tin (restrict "output" tout)).
+Proof.
+  intros H. open_construct H Hb. red_in H. ok_walk H.
+  cbn_fields. unfold from_dict. cbn_dict.
+  rewrite (dict2node_tag _ _ KOutput) by reflexivity. cbn_dict.
+  unfold construct. compute_bind. red_goal. cbn [parse_shape map fst snd ty_get restrict bind].
+  rw_hyps. rewrite tyv_round. cbn_dict. cbn_fields. reflexivity.
+Qed.
+
+Lemma idem_flatten args k' fs tin tout :
+  construct KFlatten args = Ok (Leaf k' fs tin tout) ->
+  from_dict (to_dict (Leaf k' fs tin tout)) = Ok (Leaf k' fs (restrict "input" tin) tout).
+Proof.
+  intros H. open_construct H Hb. red_in H. ok_walk H.
+  all: try match goal with E : tyv_nums _ = Some _ |- _ =>
+         cbn [tyv_nums] in E; first [discriminate E | injection E as E; subst] end.
+  all: cbn_fields; unfold from_dict; cbn_dict;
+       rewrite (dict2node_tag _ _ KFlatten) by reflexivity; cbn_dict;
+       unfold construct; compute_bind; red_goal;
+       cbn [parse_shape map fst snd ty_get restrict bind undef_ty assoc String.eqb Ascii.eqb Bool.eqb andb pval_of_tyv tyv_of_pval];
+       rw_hyps; rewrite ?tyv_round; cbn_dict; cbn [tyv_nums]; rw_hyps; cbn_fields; reflexivity.
 Qed.
